@@ -164,6 +164,9 @@ pub fn laws<K: Kind>(kname: &str, pointee: &str, state: &str, v: K, counted: boo
         fail(kname, pointee, state, "counts-restored", format!("counts {:?} at start, {:?} after all trait calls", c0, keep.counts()));
     }
     // 3. container round trip: new / load / load_full / swap / compare_and_swap / into_inner
+    // (every call is total: a budget on the crate's own step points catches a call that loops)
+    crate::sched::op_begin(20_000);
+    runner::SEQ_INCALL.store(true, std::sync::atomic::Ordering::Relaxed);
     let cont = ArcSwapAny::<K>::new(keep.clone());
     {
         let g = cont.load();
@@ -199,6 +202,9 @@ pub fn laws<K: Kind>(kname: &str, pointee: &str, state: &str, v: K, counted: boo
         fail(kname, pointee, state, "container-into_inner", "into_inner() is not the stored value".to_string());
     }
     drop(out);
+    crate::sched::op_steps();
+    runner::SEQ_INCALL.store(false, std::sync::atomic::Ordering::Relaxed);
+    crate::sched::PROGRESS.fetch_add(1, std::sync::atomic::Ordering::Relaxed);
     checks += 1;
     if counted && keep.counts() != c0 {
         fail(kname, pointee, state, "container-counts-restored", format!("counts {:?} at start, {:?} after the container round trip", c0, keep.counts()));
